@@ -237,7 +237,7 @@ func genRecipe(r *lib.Rng, nts bool) recipe {
 	case 5:
 		rc.p1 = int64(r.Intn(10))
 	case 6:
-		rc.p1 = int64(r.Intn(7))
+		rc.p1 = int64(r.Intn(11))
 	case 7:
 		rc.p1 = lib.Pick(r, int64(47), 47, 0, 1, 40, 24, 46)
 	case 8:
@@ -853,6 +853,10 @@ func main() {
 				runCtxDone(w, 1)
 				continue
 			}
+			if l[0] == "scion.twopath" {
+				runTwoPath(w, 2)
+				continue
+			}
 			if l[0] == "svc.authmodes" {
 				replayAuthModes(l[2])
 				continue
@@ -985,5 +989,6 @@ func main() {
 		}()
 	}
 	runCtxDone(w, 2)
+	runTwoPath(w, 4)
 	wg6.Wait()
 }
